@@ -26,14 +26,17 @@ PROBES = ["kill_inside_copy", "kill_between_files", "kill_holding_lock", "load_d
           "lock_contended", "lock_timeout", "refresh_skipped_in_interval", "refresh_ran",
           "load_after_crash", "torn_prefix_delivered", "two_populators_overlap", "partnered_load",
           "load_found_version_missing_then_recovered", "kill_inside_timestamp_write", "s1_enum_kill_beyond_last_step",
-          "populator_interrupted_by_io_error", "waiter_gave_up_at_timeout", "load_not_judged_lock_timeout"]
+          "populator_interrupted_by_io_error", "waiter_gave_up_at_timeout", "load_not_judged_lock_timeout",
+          "s5_refresh_overlaps_populator", "s5_load_overlaps_refresh"]
 RULE = ("Runs 0..S1_N-1 enumerate every crash point (kill before step k, plain and with a torn variant of a pending "
         "write, k = 0..139; probe s1_enum_kill_beyond_last_step shows the enumeration passed the last step) of the "
         "population of one (quick) / six (thorough) fixed file subsets, each followed by fresh loads of every file "
         "(family S1: the crash dimension of these scenarios is enumerated completely); the remaining runs are seeded scenarios of families S1 (other subsets/"
         "knobs), S2 (2 populators + 1-2 loaders, random schedule, optional kill/stall), S3 (2-3 lock holders on one "
-        "directory, one on another, stalls, kills) and S4 (refresh sequences at seeded simulated times with network "
-        "up/down, kills inside the timestamp write, clock jumps, then loads).  A run is non-trivial when at least one "
+        "directory, one on another, stalls, kills), S4 (refresh sequences at seeded simulated times with network "
+        "up/down, kills inside the timestamp write, clock jumps, then loads) and S5 (1-2 waves of 1-2 populators, a "
+        "downloading refresher, 1-3 loaders and a bare lock holder all at once, one kill and/or stall, then loads of "
+        "every file).  A run is non-trivial when at least one "
         "fault fired or two processes overlapped in time; distinct = distinct sha-256 of the complete event history.")
 COMPONENTS = {
     "real": ["hed.schema.hed_cache (all functions)", "hed.schema.hed_cache_lock.CacheLock and timestamp functions",
@@ -210,7 +213,7 @@ def generate(run_index, seed, tier):
                                         "start": 0.0, "faults": []} for f in files], "gap": 0.0})
         sc["enumerated"] = True
         return sc
-    fam = g.pick(["S1", "S2", "S2", "S3", "S4", "S4"])
+    fam = g.pick(["S1", "S2", "S2", "S3", "S4", "S4", "S5"])
     sc = {"family": fam}
     sc.update(_knobs(g))
     sc["net_up"] = g.chance(0.5)
@@ -271,6 +274,28 @@ def generate(run_index, seed, tier):
             p = g.pick(procs)
             p["faults"].append({"kind": "stall", "step": g.randrange(2, 20), "dur": round(g.uniform(0.5, 4.0), 3)})
         phases.append({"procs": procs, "gap": 0.0})
+    elif fam == "S5":
+        # everything at once on one directory: populators, a refresher that downloads what is not there yet,
+        # loaders and a bare lock holder, with one kill and/or stall somewhere; then a second wave after the gap
+        files = _file_subset(g, 2, 3)
+        sc["net_up"] = True
+        for wave in range(g.pick([1, 2])):
+            procs = [_proc(g, "populate") for _ in range(g.pick([1, 2]))]
+            procs.append(_proc(g, "refresh", net=g.chance(0.8)))
+            for _ in range(g.pick([1, 2, 3])):
+                procs.append(_proc(g, "load", version=version_of(g.pick(files))))
+            if g.chance(0.3):
+                procs.append(_proc(g, "hold", dir="cache", steps=g.randrange(1, 6), write_time=False, hold_sleep=0))
+            if g.chance(0.6):
+                p = g.pick(procs)
+                p["faults"].append({"kind": "kill", "step": g.randrange(0, 25 * len(files)),
+                                    "torn": g.pick([None, 0.3, 0.7])})
+            if g.chance(0.15):
+                p = g.pick(procs)
+                p["faults"].append({"kind": "stall", "step": g.randrange(0, 25 * len(files)),
+                                    "dur": round(g.uniform(0.1, 2.0), 3)})
+            phases.append({"procs": procs, "gap": g.pick([0.0, 0.5, 5.0, 2000.0])})
+        phases.append({"procs": [_proc(g, "load", version=version_of(f)) for f in files], "gap": 0.0})
     else:  # S4
         files = _file_subset(g, 2, 3)
         if g.chance(0.6):
@@ -653,6 +678,10 @@ def _check_history(W, sc, sim, events, procs_meta, violations, probe, lockworld,
                     probe("two_populators_overlap")
                 if kinds == {"populate", "load"}:
                     probe("load_during_population")
+                if kinds == {"populate", "refresh"}:
+                    probe("s5_refresh_overlaps_populator")
+                if kinds == {"load", "refresh"}:
+                    probe("s5_load_overlaps_refresh")
     # ---- kill classification probes
     for h in hist:
         if h[3] == "KILL":
